@@ -30,6 +30,17 @@ def _concat(arrs, axis=0, dtype=None):
     return np.concatenate(arrs).astype(dtype)
 
 
+def _int_dtype(dtype, max_value):
+    """Return `dtype`, or, when `dtype` is an integer dtype that cannot hold `max_value`, the
+    smallest integer dtype of the same signedness that holds `max_value`."""
+    dtype = np.dtype(dtype)
+    if np.issubdtype(dtype, np.integer) and max_value > np.iinfo(dtype).max:
+        # NOTE: the smallest signed type that holds v is the one that holds -v - 1.
+        value = -max_value - 1 if np.issubdtype(dtype, np.signedinteger) else max_value
+        dtype = np.promote_types(dtype, np.min_scalar_type(value))
+    return dtype
+
+
 def _load_multiple_spike_times(*spike_times_l):
     """Load multiple spike_times arrays and merge them into a single one."""
     # We concatenate all spike times arrays.
@@ -167,19 +178,24 @@ class Merger(object):
         n_templates_l = [
             int(np.load(str(subdir / 'templates.npy'), mmap_mode='r').shape[0])
             for subdir in self.subdirs]
+        # Number of cluster ids of each probe: a cluster without any spike may still have a row in
+        # the cluster metadata files (KiloSort lists every template there), and that row must not
+        # be renumbered into the id range of the next probe.
+        n_clusters_l = [
+            max([int(np.max(sc))] + self._metadata_cluster_ids(subdir)) + 1
+            for subdir, sc in zip(self.subdirs, spike_clusters_l)]
+        # The merged ids are saved with the dtype of the first probe, unless it cannot hold the
+        # largest merged id (the ids must not wrap around into the id range of another probe).
+        cluster_dtype = _int_dtype(spike_clusters_l[0].dtype, sum(n_clusters_l) - 1)
+        template_dtype = _int_dtype(spike_templates_l[0].dtype, sum(n_templates_l) - 1)
         self.cluster_offsets = []
         self.template_offsets = []
         cluster_probes_l = []
         coffset = 0
         toffset = 0
-        for i, (subdir, sc, st, n_tmp) in enumerate(
-                zip(self.subdirs, spike_clusters_l, spike_templates_l, n_templates_l)):
-            # Number of cluster ids of the probe: a cluster without any spike may still have a row in
-            # the cluster metadata files (KiloSort lists every template there), and that row must not
-            # be renumbered into the id range of the next probe.
-            n_clu = max([int(np.max(sc))] + self._metadata_cluster_ids(subdir)) + 1
-            sc += coffset
-            st += toffset
+        for i, (n_clu, n_tmp) in enumerate(zip(n_clusters_l, n_templates_l)):
+            spike_clusters_l[i] = spike_clusters_l[i].astype(cluster_dtype) + coffset
+            spike_templates_l[i] = spike_templates_l[i].astype(template_dtype) + toffset
             self.cluster_offsets.append(coffset)
             self.template_offsets.append(toffset)
             cluster_probes_l.append(i * np.ones(n_clu, dtype=np.int32))
